@@ -17,6 +17,11 @@ type Scenario struct {
 	Name string
 	Mode ClockMode
 	Make func() Instance
+	// After, if set, is called once after an exploration that completed
+	// without caps: an oracle over the whole explored tree (e.g. "from every
+	// reachable state every address is still reachable"). It returns
+	// violation messages.
+	After func() []string
 }
 
 // Instance is one fresh instantiation of a scenario.
@@ -130,6 +135,11 @@ func Explore(sc Scenario, cfg Config) *Stats {
 		total.Completed = b
 		if len(total.Violations) > 0 {
 			break
+		}
+	}
+	if sc.After != nil && total.Capped == "" && len(total.Violations) == 0 {
+		for _, m := range sc.After() {
+			total.Violations = append(total.Violations, Violation{Scenario: sc.Name, Message: m, Stable: true})
 		}
 	}
 	total.WallS = time.Since(t0).Seconds()
